@@ -567,6 +567,15 @@ func (e *Engine) verifyFunctionCase(fn *ssa.Function, spec *FuncSpec, props []st
 			x.addObl("frame", "preserves:"+strings.Trim(h, "|"), ex.reach, g, "objects allocated before the call are unchanged in "+h, token.NoPos)
 		}
 	}
+	if spec.MapOrder {
+		o := &Obligation{Name: x.oblName("static", "maporder"), Kind: "static", Func: res.Key, Q: x.q, Props: props, Desc: "no result depends on map iteration order: each map range only collects elements into a slice that is sorted before any other use (the sort criterion is assumed to be a total order on the collected elements)"}
+		if why := mapOrderReasons(fn, map[*ssa.Function]bool{}); len(why) == 0 {
+			o.Result, o.Solver = "unsat", "static"
+		} else {
+			o.Result, o.Solver, o.Output = "sat", "static", strings.Join(why, "; ")
+		}
+		x.obls = append(x.obls, o)
+	}
 	if spec.Deterministic {
 		o := &Obligation{Name: x.oblName("static", "deterministic"), Kind: "static", Func: res.Key, Q: x.q, Props: props, Desc: "result depends only on the arguments: no map iteration, select, goroutine, clock/random/environment call or package-variable read (library calls trusted deterministic)"}
 		if why := nondetReasons(e, fn, map[*ssa.Function]bool{}); len(why) == 0 {
@@ -823,4 +832,223 @@ func nondetReasons(e *Engine, fn *ssa.Function, seen map[*ssa.Function]bool) []s
 		}
 	}
 	return out
+}
+
+var sortFuncs = map[string]bool{"sort.Strings": true, "sort.Ints": true, "sort.Slice": true, "sort.SliceStable": true, "sort.Sort": true, "sort.Stable": true,
+	"slices.Sort": true, "slices.SortFunc": true, "slices.SortStableFunc": true}
+
+// mapOrderReasons: map iterations in fn (and its closures) whose order can influence the result.
+func mapOrderReasons(fn *ssa.Function, seen map[*ssa.Function]bool) []string {
+	if seen[fn] || fn.Blocks == nil {
+		return nil
+	}
+	seen[fn] = true
+	var out []string
+	loops, _ := analyzeLoops(fn, nil)
+	for _, b := range fn.Blocks {
+		for _, in := range b.Instrs {
+			if mc, ok := in.(*ssa.MakeClosure); ok {
+				out = append(out, mapOrderReasons(mc.Fn.(*ssa.Function), seen)...)
+			}
+			nx, ok := in.(*ssa.Next)
+			if !ok {
+				continue
+			}
+			r, ok := nx.Iter.(*ssa.Range)
+			if !ok {
+				continue
+			}
+			if _, isMap := r.X.Type().Underlying().(*types.Map); !isMap {
+				continue
+			}
+			li := loops[b]
+			pos := fn.Prog.Fset.Position(r.Pos())
+			where := fmt.Sprintf("map iteration at %s line %d", funcKey(fn), pos.Line)
+			if li == nil {
+				out = append(out, where+": not a recognisable loop")
+				continue
+			}
+			if why := collectThenSort(fn, li); why != "" {
+				out = append(out, where+": "+why)
+			}
+		}
+	}
+	return out
+}
+
+// collectThenSort: "" if the loop only appends to slices that are sorted right after the loop.
+func collectThenSort(fn *ssa.Function, li *loopInfo) string {
+	rootedInLoop := func(v ssa.Value) bool {
+		for d := 0; d < 8; d++ {
+			switch a := v.(type) {
+			case *ssa.Alloc:
+				return li.blocks[a.Block()]
+			case *ssa.FieldAddr:
+				v = a.X
+			case *ssa.IndexAddr:
+				v = a.X
+			default:
+				return false
+			}
+		}
+		return false
+	}
+	// slice variables held in a cell (address-taken locals): `*cell = append(*cell, ...)`
+	cells := map[*ssa.Alloc]bool{}
+	for b := range li.blocks {
+		for _, in := range b.Instrs {
+			switch in := in.(type) {
+			case *ssa.Store:
+				if !rootedInLoop(in.Addr) {
+					if cell, ok := in.Addr.(*ssa.Alloc); ok {
+						if _, isSl := derefType(cell.Type()).Underlying().(*types.Slice); isSl {
+							if call, ok := in.Val.(*ssa.Call); ok {
+								if bi, ok := call.Call.Value.(*ssa.Builtin); ok && bi.Name() == "append" {
+									if ld, ok := call.Call.Args[0].(*ssa.UnOp); ok && ld.X == cell {
+										cells[cell] = true
+										continue
+									}
+								}
+							}
+						}
+					}
+					return "the loop body stores to memory that outlives an iteration"
+				}
+			case *ssa.MapUpdate, *ssa.Send, *ssa.Go, *ssa.Defer, *ssa.Return:
+				return "the loop body has effects other than collecting elements"
+			case ssa.CallInstruction:
+				if bi, ok := in.Common().Value.(*ssa.Builtin); !ok || (bi.Name() != "append" && bi.Name() != "len" && bi.Name() != "cap") {
+					return "the loop body calls " + in.Common().Value.Name()
+				}
+			}
+		}
+	}
+	// collected slices: header phis fed by append on the back edge
+	var collected []*ssa.Phi
+	for _, in := range li.header.Instrs {
+		p, ok := in.(*ssa.Phi)
+		if !ok {
+			break
+		}
+		if _, isSl := p.Type().Underlying().(*types.Slice); !isSl {
+			if p.Comment == "" || isInteger(p.Type()) {
+				continue
+			}
+			return "a loop-carried value other than a collected slice (" + p.Comment + ")"
+		}
+		collected = append(collected, p)
+	}
+	// cell-held collections: the first call after the loop (in its exit block) must be a sort of that slice
+	for cell := range cells {
+		var exit *ssa.BasicBlock
+		for b := range li.blocks {
+			for _, sb := range b.Succs {
+				if !li.blocks[sb] {
+					if exit != nil && exit != sb {
+						return "the loop has several exits"
+					}
+					exit = sb
+				}
+			}
+		}
+		if exit == nil {
+			return "the loop has no exit"
+		}
+		sorted := false
+		for _, in := range exit.Instrs {
+			call, ok := in.(ssa.CallInstruction)
+			if !ok {
+				continue
+			}
+			c := call.Common()
+			if len(c.Args) > 0 {
+				arg := c.Args[0]
+				if mi, ok := arg.(*ssa.MakeInterface); ok {
+					arg = mi.X
+				}
+				if ld, ok := arg.(*ssa.UnOp); ok && ld.X == cell && isSortOf(in, c.Args[0]) {
+					sorted = true
+				}
+			}
+			break // only the first call counts
+		}
+		if !sorted {
+			return "the collected slice " + cell.Comment + " is not sorted right after the loop"
+		}
+	}
+	for _, p := range collected {
+		var sortCall ssa.Instruction
+		var others []ssa.Instruction
+		for _, u := range *p.Referrers() {
+			if li.blocks[u.Block()] {
+				continue
+			}
+			if isSortOf(u, p) {
+				if sortCall == nil {
+					sortCall = u
+				}
+				continue
+			}
+			if mi, ok := u.(*ssa.MakeInterface); ok {
+				// sort.Slice(x any, ...) / sort.Sort(x Interface): look through the interface conversion
+				isS := false
+				for _, uu := range *mi.Referrers() {
+					if isSortOf(uu, mi) {
+						isS = true
+						if sortCall == nil {
+							sortCall = uu
+						}
+					}
+				}
+				if isS {
+					continue
+				}
+			}
+			if _, ok := u.(*ssa.DebugRef); ok {
+				continue
+			}
+			others = append(others, u)
+		}
+		if sortCall == nil {
+			return "the collected slice " + p.Comment + " is used without being sorted"
+		}
+		for _, u := range others {
+			if u.Block() == sortCall.Block() {
+				bi, si := -1, -1
+				for i, in := range u.Block().Instrs {
+					if in == u {
+						bi = i
+					}
+					if in == sortCall {
+						si = i
+					}
+				}
+				if bi < si {
+					return "the collected slice " + p.Comment + " is used before it is sorted"
+				}
+				continue
+			}
+			if !sortCall.Block().Dominates(u.Block()) {
+				return "the collected slice " + p.Comment + " can be used without passing the sort"
+			}
+		}
+	}
+	return ""
+}
+
+func isSortOf(u ssa.Instruction, v ssa.Value) bool {
+	call, ok := u.(ssa.CallInstruction)
+	if !ok {
+		return false
+	}
+	c := call.Common()
+	f, ok := c.Value.(*ssa.Function)
+	if !ok || len(c.Args) == 0 || c.Args[0] != v {
+		return false
+	}
+	name := f.String()
+	if i := strings.Index(name, "["); i >= 0 {
+		name = name[:i]
+	}
+	return sortFuncs[name]
 }
